@@ -456,7 +456,7 @@ func C14(ctx *core.Ctx) {
 							}
 						}
 					}
-					if !hasTA {
+					if !hasTA && !underEOFTest(ret.Block()) { // … or by a predicate of the package that makes that test
 						ok = false
 					}
 				}
